@@ -29,7 +29,7 @@ def weights(draw, allow_zero=True):
     if k <= 4:
         return float(draw(st.integers(1, 9)))
     if k <= 6:
-        return draw(st.sampled_from([0.5, 0.25, 0.1, 2.5, 0.01, 10.1, 1.0]))
+        return draw(st.sampled_from([0.5, 0.25, 0.1, 2.5, 0.01, 10.1, 1.0, 0.00005, 1e-7, 250000.0]))
     return round(draw(st.floats(0.05, 20.0)), 3)
 
 
@@ -657,7 +657,10 @@ def _unify_ids(mol):
             continue
         side = {b.id for b in s.bds} - {old}
         if base in side:
-            continue  # would clash with a side-chain id: leave (closability analysis will reject)
+            # the new backbone id is in use for side chains of this object: move those out of the way first
+            for b in s.bds:
+                if b.id == base:
+                    b.id = 70 + (base or 0)
         for b in s.bds:
             if b.id == old:
                 b.id = base
